@@ -37,6 +37,25 @@ def cases(tier, seed):
                 cs.append({'scen': 'riem_projection', 's': s})
                 if what == 'fixes_base_point':
                     break
+    # riemannian_gradient through the autograd model
+    AD = {'setup': {'factor_mode': 'exact', 'autograd': True}}
+    for st in structs:
+        N, Rx, M = st[0], st[1], st[2]
+        pats = st[3] if len(st) > 3 else None
+        if M is not None and not th:
+            if pats:
+                continue
+        for fk in ('quadratic', 'linear', 'quartic'):
+            if fk == 'quartic' and (N != [2, 2] or M is not None or max(Rx) > 1) and not th:
+                continue
+            if fk == 'quartic' and th and (len(N) > 2 or max(Rx) > 2 or M is not None):
+                continue
+            s = {'N': N, 'Rx': Rx, 'f': fk}
+            if M:
+                s['M'] = M
+            if pats:
+                s['patterns'] = pats
+            cs.append({'scen': 'riem_gradient', 's': s, 'opts': AD})
     return cs
 
 
@@ -47,6 +66,8 @@ def opts(tier):
 
 def sig(case, label):
     s = case['s']
+    if case['scen'] == 'riem_gradient':
+        return 'riem_gradient:%s:%s:%s' % ('ttm' if 'M' in s else 'tt', s['f'], label)
     return 'riem_projection:%s:%s:%s' % ('ttm' if 'M' in s else 'tt', s['what'], label)
 
 
@@ -54,12 +75,12 @@ def meta(tier):
     from .. import loader
     tt = loader.load()
     import torchtt._decomposition as dec
-    fns = [tt.manifold.riemannian_projection, tt.manifold._delta2cores, dec.lr_orthogonal, dec.rl_orthogonal]
+    fns = [tt.manifold.riemannian_projection, tt.manifold.riemannian_gradient, tt.manifold._delta2cores, dec.lr_orthogonal, dec.rl_orthogonal]
     return {
         'functions': loader.functions_encoded(fns), 'sig': sig,
         'bounds': 'base points x of order 2..3 (thorough 4): (a) rank 1 with arbitrary sign-free symbolic entries, (b) ranks 2..3 with sparse cores (scaled partial permutation per slice) and symbolic positive magnitudes; TT tensors and TT matrices; z, w arbitrary symbolic TT objects of rank 1 (2 for order 2 over rank-1 base points); '
                   'alpha, beta symbolic; QR by exact symbolic Gram-Schmidt',
-        'outside': 'rank-deficient base points (the Gram-Schmidt pivots are assumed non-zero: minimal-rank precondition of the property); dense base points of rank >= 2 (expression blow-up in exact symbolic QR); riemannian_gradient (needs autograd: see C15 note); IEEE rounding',
+        'outside': 'rank-deficient base points (the Gram-Schmidt pivots are assumed non-zero: minimal-rank precondition of the property); dense base points of rank >= 2 (expression blow-up in exact symbolic QR); IEEE rounding; riemannian_gradient: f from {quadratic misfit, linear functional, quartic}, derivative of torch primitives trusted (autograd model of C15)',
         'assumptions': ['torch.linalg.qr replaced by exact symbolic Gram-Schmidt (positive diagonal)', 'symtorch validated per run against real torch', 'z3 sat/unsat verdicts; unknown counted inconclusive'],
         'tv_max': 40,
         'explanation': 'Each projector identity is an equality of rational functions (with square roots) of all core entries; after clearing denominators z3 decides EXISTS entries . lhs != rhs.',
